@@ -44,7 +44,7 @@ MUTATORS = [
     ("swapnames", 1, 2),
     ("append", "newcol"), ("into-empty",), ("elem", "first", 0, 0), ("elem", "last", 2, False),
 ]
-MUTATORS_SMALL = [MUTATORS[i] for i in (0, 2, 3, 5, 8, 9, 11, 14, 15, 16)]
+MUTATORS_SMALL = [MUTATORS[i] for i in (0, 3, 5, 8, 9, 11, 14, 16, 19, 20)]
 MUTATORS_TINY = [MUTATORS[i] for i in (0, 5, 9, 11, 14, 16, 18, 19, 20)]
 QSUB = ["none", "indexed", "rows"]
 
@@ -231,11 +231,11 @@ def main():
     # depth-2 over the full alphabet with every query subset in between; depth-3 (4 in thorough) over the reduced alphabet
     plans = [(MUTATORS, QSUB, 2), (MUTATORS_TINY, ["none", "full"], 3)]
     if thorough:
-        plans = [(MUTATORS, QSUB + ["full"], 3), (MUTATORS_SMALL, ["none", "full"], 4)]
+        plans = [(MUTATORS, QSUB + ["full"], 2), (MUTATORS, ["none", "full"], 3), (MUTATORS_SMALL, ["none", "full"], 4)]
     n_seq = 0
     for muts, subs, depth in plans:
         steps = [(m, q) for m in muts for q in subs]
-        for tn in (tables if (thorough or depth < 3) else ["gir-like", "pure-int-bool"]):
+        for tn in (tables if depth < (4 if thorough else 3) else ["gir-like", "pure-int-bool"]):
             allseq = []
             for d in range(1, depth + 1):
                 for seq in itertools.product(steps, repeat=d):
